@@ -57,7 +57,7 @@ def error_ctor_calls(model: Model, f: FuncInfo) -> t.List[t.Tuple[Node, ast.Call
 # ---------------------------------------------------------------------------- C07
 
 
-KEY_FORMS = re.compile(r'^(KEY\(VAL\)|str\(KEY\(VAL\)\)|INDEX\(.*\))$')
+KEY_FORMS = re.compile(r'^(KEY\(VAL\)|INDEX\(.*\))$')
 
 
 def rule_c07_r1(model: Model) -> RuleResult:
